@@ -134,3 +134,22 @@ def device_management_request_step(d, req, e0):
         ack = sent[0].body
         assert isinstance(ack, DeviceConfigurationAck)
         assert ack.sequence_counter == c and ack.communication_channel_id == d.communication_channel
+
+
+# ------------------------------------------------------------------ every established connection starts counting at 0
+
+from contracts import c24_tunnel_send as _c24  # noqa: E402
+from pyvc.api import run  # noqa: E402
+from xknx.io.tunnel import _Tunnel as _TunnelBase  # noqa: E402
+
+
+@lemma("C23", params=dict(t=_c24._connect_spec(UDPTunnel), new_channel=Int(0, 255)), stubs=[(_TunnelBase, "_connect_request", _c24._connect_request)])
+def a_new_udp_connection_resets_the_incoming_counter(t, new_channel):
+    """UDPTunnel.connect() over the real setup_tunnel, with and without route-back, whatever the counter of
+    the previous connection was: the incoming counter is reset exactly once, before the ConnectRequest is
+    answered - the server's first frame on the new connection carries 0."""
+    ghost("new_channel").append(new_channel)
+    run(t.connect())
+    tr = ghost("T")
+    assert tr.count("incoming_reset") == 1
+    assert tr.index("incoming_reset") < tr.index("connect_request")
